@@ -540,7 +540,7 @@ def run_sum_bound(case):
     ssum = float(sum(f))
     cut = DEFAULT_CUTOFF if case.get("cutoff") is None else case["cutoff"]
     cons = is_conserved(ref_matrix(case), list(case["sources"]), list(case["sinks"]))
-    only_last = (ssum - f[-1]) < min(1.0, cut + REL) * tot if f else True
+    only_last = (ssum - f[-1]) < (cut + REL) * tot if f else True
     R = ref_matrix(case)
     use = {}
     for p, x in zip(ps, f):
